@@ -152,6 +152,9 @@ def NodeKind.isFact : NodeKind → Bool
 structure Builder where
   nodes : List Node := []
   seen : List ((String × Tuple) × Nat) := []
+  /-- ids of nodes that do not fully explain their conclusion (truncated at the depth limit, or a
+      step resting on such a node); they are never memoised (proof_tree.rs `incomplete`) -/
+  incomplete : List Nat := []
   deriving Repr, Inhabited
 
 def Builder.getExisting (b : Builder) (pred : String) (args : Tuple) : Option Nat :=
@@ -161,12 +164,23 @@ def Builder.getExisting (b : Builder) (pred : String) (args : Tuple) : Option Na
 def Builder.insertUnique (b : Builder) (n : Node) : Nat × Builder :=
   (b.nodes.length, { b with nodes := b.nodes ++ [n] })
 
+/-- `insert_unique` followed by `mark_incomplete`. -/
+def Builder.insertIncomplete (b : Builder) (n : Node) : Nat × Builder :=
+  (b.nodes.length, { b with nodes := b.nodes ++ [n], incomplete := b.nodes.length :: b.incomplete })
+
+def Builder.isIncomplete (b : Builder) (id : Nat) : Bool := b.incomplete.contains id
+
 /-- `insert` (proof_tree.rs:549): fact nodes are deduplicated by conclusion; every inserted node
     (re)binds the `seen` key. -/
 def Builder.insert (b : Builder) (n : Node) : Nat × Builder :=
   match (if n.kind.isFact then b.seen.lookup (n.pred, n.args) else none) with
   | some id => (id, b)
-  | none => (b.nodes.length, { nodes := b.nodes ++ [n], seen := ((n.pred, n.args), b.nodes.length) :: b.seen })
+  | none => (b.nodes.length, { b with nodes := b.nodes ++ [n], seen := ((n.pred, n.args), b.nodes.length) :: b.seen })
+
+/-- a rule step: memoised (`insert`) unless it rests on an incomplete premise
+    (backward_chaining.rs `rests_on_incomplete`). -/
+def Builder.insertRule (b : Builder) (n : Node) : Nat × Builder :=
+  if n.children.any b.isIncomplete then b.insertIncomplete n else b.insert n
 
 /-! ### context (backward_chaining.rs:26-97) -/
 
@@ -224,6 +238,15 @@ def posMatches (ctx : Ctx) (en : EnumFn) (vis : Visited) (a : Atom) (bindings : 
     else m0
   if m1.isEmpty && ctx.isDerived a.rel then en a.rel bound vis else m1
 
+/-- facts refuting a negated atom: stored ones, else derived ones (prove_body.rs:84-93, why_not.rs:210-218). -/
+def negMatches (ctx : Ctx) (rel : String) (bound : List BT) : List (Tuple × Bindings) :=
+  let m := findMatching rel bound ctx.base
+  if m.isEmpty then
+    match ctx.derived with
+    | some d => findMatching rel bound d
+    | none => m
+  else m
+
 /-- one body predicate applied to one state (prove_body.rs:38-198). -/
 def stepState (ctx : Ctx) (bn : BuildFn) (en : EnumFn) (vis : Visited) (l : Lit) (st : State) (b : Builder) :
     List State × Builder :=
@@ -231,7 +254,7 @@ def stepState (ctx : Ctx) (bn : BuildFn) (en : EnumFn) (vis : Visited) (l : Lit)
   | .pos a => stepMatches bn a.rel vis st.1 st.2 (posMatches ctx en vis a st.1) b
   | .neg a =>
     let bound := substituteAtom a st.1
-    if (findMatching a.rel bound ctx.base).isEmpty then
+    if (negMatches ctx a.rel bound).isEmpty then
       let r := b.insertUnique { kind := .neg bound, pred := a.rel, args := concPart bound }
       ([(st.1, st.2 ++ [r.1])], r.2)
     else ([], b)
@@ -267,7 +290,7 @@ def addRuleNodes (ctx : Ctx) (rel : String) (values : Tuple) (idx : Nat) :
   | [], res, b => (res, b)
   | (fb, kids) :: sts, res, b =>
     if res.length ≥ ctx.maxProofs then (res, b) else
-    let r := b.insert { kind := .rule idx (fb.filter (fun p => !isPlaceholderName p.1)), pred := rel, args := values, children := kids }
+    let r := b.insertRule { kind := .rule idx (fb.filter (fun p => !isPlaceholderName p.1)), pred := rel, args := values, children := kids }
     addRuleNodes ctx rel values idx sts (res ++ [r.1]) r.2
 
 /-- the `for (clause_idx, rule) in rules` loop (backward_chaining.rs:248-312).
@@ -326,7 +349,7 @@ def buildNodeAt (ctx : Ctx) (pb : Visited → List Lit → List State → Builde
 /-- `build_node` at `depth ≥ max_depth` (backward_chaining.rs:155-175). -/
 def truncNodeAt (ctx : Ctx) : BuildFn :=
   fun rel tuple b _ =>
-    let r := b.insertUnique { kind := .trunc ctx.maxDepth, pred := rel, args := tuple }
+    let r := b.insertIncomplete { kind := .trunc ctx.maxDepth, pred := rel, args := tuple }
     ([r.1], r.2)
 
 /-! ### enumerate_derived_candidates (prove_body.rs:225-323) -/
@@ -353,18 +376,27 @@ def enumMatchesPattern : List BT → Tuple → Bool
   | _ :: bts, _ :: vs => enumMatchesPattern bts vs
   | _, _ => true
 
-def enumNewBinds : List BT → Tuple → Bindings → Bindings
-  | .unb x :: bts, v :: vs, nb => enumNewBinds bts vs ((x, v) :: nb)
+/-- new bindings of a candidate; `none` when a repeated pattern variable would get two different
+    values (prove_body.rs `consistent`). -/
+def enumNewBinds : List BT → Tuple → Bindings → Option Bindings
+  | .unb x :: bts, v :: vs, nb =>
+    match nb.lookup x with
+    | some e => if e == v then enumNewBinds bts vs nb else none
+    | none => enumNewBinds bts vs ((x, v) :: nb)
   | _ :: bts, _ :: vs, nb => enumNewBinds bts vs nb
-  | _, _, nb => nb
+  | _, _, nb => some nb
 
 def enumCollect (ctx : Ctx) (bts : List BT) (head : Atom) : List State → List (Tuple × Bindings) → List (Tuple × Bindings)
   | [], acc => acc
   | (fb, _) :: sts, acc =>
     if acc.length ≥ ctx.maxCandidates then acc else
     match enumHeadValues fb head.args with
-    | some t => if enumMatchesPattern bts t then enumCollect ctx bts head sts (acc ++ [(t, enumNewBinds bts t [])])
-                else enumCollect ctx bts head sts acc
+    | some t =>
+      if enumMatchesPattern bts t then
+        match enumNewBinds bts t [] with
+        | some nb => enumCollect ctx bts head sts (acc ++ [(t, nb)])
+        | none => enumCollect ctx bts head sts acc
+      else enumCollect ctx bts head sts acc
     | none => enumCollect ctx bts head sts acc
 
 def enumRules (ctx : Ctx) (pb : Visited → List Lit → List State → Builder → Option (List State) × Builder)
@@ -473,7 +505,7 @@ def traceBody (ctx : Ctx) : List Lit → Nat → Bindings → List (String × Tu
         | [] => (b, fs, some (.atomFailed i a.rel bound))
     | .neg a =>
       let bound := substituteAtom a b
-      match findMatching a.rel bound ctx.base with
+      match negMatches ctx a.rel bound with
       | (t, _) :: _ => (b, fs, some (.negSucceeded i a.rel t))
       | [] => traceBody ctx ls (i + 1) b fs
     | .cmp x op y =>
